@@ -16,7 +16,8 @@ BOUNDS = ("Plate / slice operations on 2x3 plates (2x2 for many-to-one) with non
           "ENZYME) and fill_to (uL, mg, umol) on plate/row/col/rect/stepped/well/list/slice-of-slice selections and on 'row:col' label strings of a plate whose labels are digit strings different from their positions; each also as a "
           "recipe step through bake, alone and after an earlier step that changed every well of the plate; 12 shape combinations that must be rejected. Oracle: the same stand-alone "
           "Container operation applied to free-standing copies of the addressed wells, folded in row-major order, "
-          "executed symbolically by the same engine. Lite rounding model; 'tight' precondition q < held per source well.")
+          "executed symbolically by the same engine. Lite rounding model; 'tight' precondition q < held per source well. "
+          "transfer-precision cells: delta rounding model, pinned decimal well contents, quantities of 0-1 nL / nmol with 13 decimals.")
 OUTSIDE = ("IEEE rounding; overlapping source/destination regions (C01 known finding); plates larger than 2x3; failure "
            "part-way through a multi-well operation (C04).")
 ASSUMPTIONS = ["instruction-text helpers are replaced by non-forking summaries (subject of C19)"]
@@ -59,6 +60,16 @@ def cells(tier, seed):
             for via in (['direct', 'recipe'] if (tier == 'thorough' or unit == 'uL') else ['direct']):
                 out.append({'id': f"transfer/{g}/{unit}/{via}", 'fn': 'h_transfer', 'round': 'lite', 'max_paths': 60,
                             'cost': 4, 'params': {'geom': g, 'unit': unit, 'via': via}})
+    # quantities below the resolution of the *base* units but well inside the library's own resolution (storage units):
+    # delta rounding model, pinned well contents (linear arithmetic), a symbolic quantity with many decimals
+    # (one source dispensing into several wells is left to the lite model: the second draw divides by a volume that carries
+    #  the first draw's rounding errors, and those nonlinear queries do not finish)
+    for g in (['c->sub', 'row->row', 'col->c', 'same/row->row'] if tier == 'quick' else
+              ['c->sub', 'row->row', 'col->c', 'same/row->row', 'lists', 'all->well', 'sub->sub', 'sub->c']):
+        for unit in ['nL', 'nmol'] + (['ug'] if tier == 'thorough' else []):
+            out.append({'id': f"transfer-precision/{g}/{unit}", 'fn': 'h_transfer', 'round': 'delta', 'max_paths': 60,
+                        'cost': 4, 'params': {'geom': g, 'unit': unit, 'via': 'direct', 'delta': True, 'q_hi': 1,
+                                              'pin': _pin()}})
     for sel in SEL:
         for what in (['water', 'SOLID', 'ENZYME'] if tier == 'thorough' else ['water', 'SOLID']):
             for via in ['direct', 'recipe', 'recipe2']:
@@ -71,6 +82,23 @@ def cells(tier, seed):
     for i in range(len(BAD_SHAPES)):
         out.append({'id': f"shape-rule/{i}", 'fn': 'h_shape_rule', 'round': 'lite', 'max_paths': 10, 'params': {'i': i}})
     return out
+
+
+def _pin():
+    """decimal contents for every well / container a transfer cell may build (pinned inputs, see H.real)"""
+    pin = {}
+    base = {'water': 5550.84351, 'NaCl': 100.0000001, 'lipase': 25.05}
+    k = 0
+    for name in ['P', 'Q']:
+        for r in range(2):
+            for c in range(3):
+                k += 1
+                for sname, v in base.items():
+                    pin[f"{name}{r + 1}{c + 1}.{sname}"] = repr(round(v * (1 + k / 7), 7))
+    for name in ['src', 'dst']:
+        for sname, v in base.items():
+            pin[f"{name}.{sname}"] = repr(round(v * (11 if name == 'src' else 3), 7))
+    return pin
 
 
 def _mk_plate(h, lib, name, shape, subs, lo=Fr(1, 1000), hi=10**4, labelled=False):
@@ -130,7 +158,10 @@ def h_transfer(h):
     mix = ['water', 'NaCl', 'lipase']
     lib = Lib(h, mix)
     prefix, base = split_unit(p['unit'])
-    q = h.real('q', 0, 10**6)
+    q = h.real('q', 0, p.get('q_hi', 10**6))
+    if p.get('delta'):
+        # more decimals than the library keeps in base units, whatever value the solver picks
+        q = q + h.const('0.0000123456789')
     qb = q * PREFIX[prefix]
     quantity = f"{q} {p['unit']}"
     objs = {}
